@@ -1243,3 +1243,81 @@ def r_marker_reapply(ctx: Ctx, rule: str, declare: bool = True) -> None:
                     fi=mr,
                     node=p.node,
                 )
+
+
+def r_transfer_reapply_engine(ctx: Ctx, rule: str) -> None:
+    """A Transfer re-applied onto a new target must not end up connecting an engine to itself."""
+    from ..flow import field_access, path_calls as _pc
+
+    run, m = ctx.run, ctx.m
+    run.rule(
+        rule,
+        "a transfer node is re-applied (`<transfer>.reapply(<new target>)`) only onto the processed image of its own target "
+        "(the result of the same recursive function on that target, which stays in the target's engine) or where the path "
+        "has established that the new target's engine differs from the destination: a relation that an elision handed "
+        "back from another engine would otherwise get a transfer from the destination engine to itself",
+        expected_min=2,
+    )
+    n = 0
+    for f in m.all_functions():
+        if not any(isinstance(x, ast.Call) and call_attr(x) == "reapply" for x in ast.walk(f.node)):
+            continue
+        for i, p in enumerate(ctx.paths(f)):
+            # the arm's subject must be a Transfer
+            arms = [(j, s) for j, s in enumerate(p.steps) if s.kind == "case" and s.value and "Transfer" in src(s.node.pattern).split("(")[0]]  # type: ignore[union-attr]
+            if not arms:
+                continue
+            j0, arm = arms[-1]
+            caps = pattern_captures(arm.node.pattern)  # type: ignore[union-attr]
+            tcap = next((nm for nm, acc in caps.items() if acc == ("target",)), None)
+            alias = next((nm for nm, acc in caps.items() if acc == ()), None)
+            subject = src(arm.subject) if getattr(arm, "subject", None) is not None else None
+            for j, c in _pc(p, j0):
+                if call_attr(c) != "reapply" or not c.args or not isinstance(c.func, ast.Attribute):
+                    continue
+                recv = src(c.func.value)
+                if recv not in {alias, subject}:
+                    continue
+                n += 1
+                new = c.args[0]
+                b = resolve_name(p, new.id, j) if isinstance(new, ast.Name) else new
+                if isinstance(b, tuple) and b[0] == "unpack":
+                    b = b[1]
+                inst = f"{f.module.rel}:{f.qualname}:path{i}:reapply"
+                ok = False
+                why = ""
+                # (a) the image of the transfer's own target under the same recursive function
+                if isinstance(b, ast.Call) and call_attr(b) == f.name and b.args:
+                    targs = [a for a in b.args if (fa := field_access(p, a, j)) is not None and fa[1][-1:] == ("target",)]
+                    ok = bool(targs)
+                    why = "recursive image of the target"
+                # (a') the transfer's own target, unchanged
+                if not ok:
+                    fa = field_access(p, new, j)
+                    if fa is not None and fa[1][-1:] == ("target",):
+                        ok, why = True, "the target itself"
+                # (b) the path established that the new target is not in the destination engine
+                if not ok:
+                    facts = path_facts(p)
+                    names = {src(new)}
+                    dest = {f"{recv}.destination", "self", f"{subject}.destination" if subject else "self"} | {nm for nm, acc in caps.items() if acc == ("destination",)}
+                    for fct in facts:
+                        if fct.kind in ("EQ", "IS") and not fct.polarity and len(fct.args) == 2:
+                            a0, a1 = fct.args
+                            if (a0 in dest and a1 in {f"{x}.engine" for x in names}) or (a1 in dest and a0 in {f"{x}.engine" for x in names}):
+                                ok = True
+                                why = "engine difference established"
+                if ok:
+                    run.ok(rule, inst, {"why": why})
+                else:
+                    run.fail(
+                        rule,
+                        inst,
+                        f"`{src(c)[:70]}` puts the transfer back on top of `{src(b)[:50] if isinstance(b, ast.AST) else src(new)}` without knowing its engine: when that call elides the operation in favour of "
+                        "a relation that already lives in the destination engine (a join to a join identity returns the other operand), the result is a transfer from that engine to itself",
+                        fi=f,
+                        node=c,
+                        details=describe(p),
+                    )
+    if n == 0:
+        raise AnalysisError("no transfer re-application site found")
